@@ -318,6 +318,18 @@ class Inliner:
             if any(isinstance(s, ast.Expr) and not isinstance(s.value, ast.Constant) for s in body[:-1]):
                 return None  # a call for its side effect
             return ff.resolved(last, last.value)
+        # for x in IT: if COND: return True  \n return False     ==  any(COND for x in IT)      (and the dual with all / not)
+        if len(body) == 2 and isinstance(body[0], ast.For) and not body[0].orelse and isinstance(last, ast.Return) and isinstance(last.value, ast.Constant) \
+                and isinstance(last.value.value, bool) and len(body[0].body) == 1 and isinstance(body[0].body[0], ast.If) and not body[0].body[0].orelse \
+                and len(body[0].body[0].body) == 1 and isinstance(body[0].body[0].body[0], ast.Return) and isinstance(body[0].body[0].body[0].value, ast.Constant) \
+                and body[0].body[0].body[0].value.value is (not last.value.value):
+            lp = body[0]
+            cond = lp.body[0].test
+            gen = ast.GeneratorExp(elt=copy.deepcopy(cond), generators=[ast.comprehension(target=copy.deepcopy(lp.target), iter=copy.deepcopy(lp.iter), ifs=[], is_async=0)])
+            if last.value.value is False:
+                return ast.Call(func=ast.Name(id="any", ctx=ast.Load()), args=[gen], keywords=[])
+            gen.elt = ast.UnaryOp(op=ast.Not(), operand=gen.elt)
+            return ast.Call(func=ast.Name(id="all", ctx=ast.Load()), args=[gen], keywords=[])
         # if c: return a  \n return b      |   if c: return a else: return b
         pre = body[:-2] if len(body) >= 2 and isinstance(body[-2], ast.If) else (body[:-1] if isinstance(last, ast.If) else None)
         if pre is None or not all(isinstance(s, (ast.Assign, ast.AnnAssign)) for s in pre):
@@ -349,7 +361,21 @@ class Inliner:
                     return node
                 inl.expanded[callee.qualname] = inl.expanded.get(callee.qualname, 0) + 1
                 out = _Rename({k: v for k, v in b.items()}).visit(copy.deepcopy(e))
-                return ast.copy_location(out, node)
+                out = ast.copy_location(out, node)
+                # helpers used inside the expanded expression (bounded: helpers are not recursive)
+                self.nest = getattr(self, "nest", 0) + 1
+                if self.nest <= 4:
+                    out = self.generic_visit(out) if not isinstance(out, ast.Call) else self.visit_Call_children(out)
+                self.nest -= 1
+                return out
+
+            def visit_Call_children(self, node):
+                for fld, val in ast.iter_fields(node):
+                    if isinstance(val, list):
+                        setattr(node, fld, [self.visit(x) if isinstance(x, ast.AST) else x for x in val])
+                    elif isinstance(val, ast.AST):
+                        setattr(node, fld, self.visit(val))
+                return node
 
             def visit_Attribute(self, node: ast.Attribute):
                 self.generic_visit(node)
